@@ -620,6 +620,16 @@ func vUnsubscribePacket(id uint16, topics []string) *packets.UnsubscribePacket {
 func verifC14_MultiFilterPackets() {
 	b := vC16Broker(0)
 	c1 := vConnect("c", false, "")
+	// the client may have registered a will; when its connection is lost the will is published
+	// through the Publish pipeline, which may let it pass or reject it - the teardown of the
+	// connection does not depend on that
+	if verifBool("clientHasAWill") {
+		cp := c1.script[0].(*packets.ConnectPacket)
+		cp.WillFlag, cp.WillTopic, cp.WillMessage, cp.WillQos = true, "w/1", []byte{1}, 0
+		b.pipelines[Publish] = "pub"
+		b.muxMapper = &vMapper{&vHandler{verdict: verifChoose("willPublicationVerdict", 2)}}
+		verifCover("client-with-a-will")
+	}
 	c1.script = append(c1.script, vSubscribePacket(1, []string{"a/1"}, []byte{1}))
 	bad := "zz/#/x"
 	kind := verifChoose("packetWithMalformedFilter", 6)
